@@ -1266,6 +1266,32 @@ def _sorted_items(ex, items):
     return out
 
 
+@model(r'core::slice::<impl \[String\]>::(sort|sort_unstable|binary_search)|Vec::<String>::(sort|sort_unstable|dedup|binary_search)')
+def m_string_vec_order(ex, c, a, m):
+    """sorting / dedup / binary search of a vector of strings (bytewise order decided by the solver where bytes are symbolic)"""
+    op = m.group(1) or m.group(2)
+    ref = a[0]
+    v = d(ref)
+    items = [as_S(x) for x in v]
+    if op in ('sort', 'sort_unstable'):
+        out = [e[0] for e in _sorted_items(ex, [[x, None] for x in items])]
+        v[:] = out
+        return UNIT
+    if op == 'dedup':
+        out = []
+        for x in items:
+            if out and len(out[-1]) == len(x) and ex.branch(seq_eq(out[-1], x)):
+                continue
+            out.append(x)
+        v[:] = out
+        return UNIT
+    key = as_S(a[1])
+    for i, x in enumerate(items):
+        if len(x) == len(key) and ex.branch(seq_eq(x, key)):
+            return Ok(i)
+    return Err(sum(1 for x in items if _bytes_lt(ex, x, key)))
+
+
 def _btree_range(ex, mp, rng, c):
     items = _sorted_items(ex, list(mp.items))
     rng = d(rng)
